@@ -113,19 +113,63 @@ class RoundOdd(Contract):
         return {}
 
 
+class L5_core(Lemma):
+    """
+    L5 (core).  y > 0 real, at some scale E: dig = floor(y / 2^E), stk = (y mod 2^E != 0).
+      c1 = dig with its last digit forced to 1 iff stk      (round to odd, last digit at E)
+      c2 = 2*dig + stk                                       (fine representation, last digit at E-1: rounds as y does)
+    For every grid spacing A (in units of 2^E) that is a multiple of 4 -- i.e. at least two digits of c1 are
+    dropped: a half digit and a sticky digit -- rounding c1 on the grid A and c2 on the grid 2*A give the same
+    quotient, the same increment decision, the same inexact flag and the same carry, for every mode and sign.
+    The clauses are proof steps (option `chain`): each is proved from the precondition and the earlier ones.
+    """
+    params = {'s': 'bool', 'dig': 'int', 'stk': 'bool', 'A': 'int', 'H': 'int', 'A2': 'int',
+              'p': 'int | None', 'n': 'int', 'rm': 'RoundingMode'}
+    properties = ['C02', 'C03']
+    split = ['rm']
+    options = {'chain': True}
+
+    def pre(self, s, dig, stk, A, H, A2, p, n, rm):
+        return {'dig': dig >= 0, 'two_extra_digits': H >= 1 and A == 4 * H, 'A2': A2 == 2 * A, 'p': p is None or p >= 1}
+
+    def post(self, s, dig, stk, A, H, A2, p, n, rm):
+        c1 = rto_c(dig, stk)
+        c2 = fine_c(dig, stk)
+        q1 = fdiv(c1, A)
+        r1 = fmod(c1, A)
+        q2 = fdiv(c2, A2)
+        r2 = fmod(c2, A2)
+        X = rnd_grid(s, c1, A, p, n, rm)
+        Y = rnd_grid(s, c2, A2, p, n, rm)
+        return {
+            'quotient': q1 == q2,
+            'remainder': r2 == 2 * r1 - (2 * c1 - c2),
+            'parity': fmod(r1, 2) == fmod(c1, 2),
+            'zero_iff': (r1 == 0) == (r2 == 0),
+            'above_half_iff': (2 * r1 > A) == (2 * r2 > A2),
+            'half_iff': (2 * r1 == A) == (2 * r2 == A2),
+            'increment': incr(rm, s, q1, r1, A) == incr(rm, s, q2, r2, A2),
+            'exp': X[0] == Y[0],
+            'c': X[1] == Y[1],
+            'inexact': X[2] == Y[2],
+            'carry': X[3] == Y[3],
+        }
+
+
 class L5_reround(Lemma):
     """
     L5.  y > 0 real, E a scale: dig = floor(y / 2^E), stk = (y mod 2^E != 0).
-      co = round-to-odd of y with last digit at E      = (s, E,   dig | stk)
+      co = round-to-odd of y with last digit at E      = (s, E,   dig with last digit forced to 1 iff stk)
       w  = fine representation of y (sticky appended)   = (s, E-1, 2*dig + stk)   [rounds exactly as y does]
-    For every rounding position n >= E + 1 (at least two digits of co are dropped: one half digit, one sticky
-    digit), every precision p and every rounding mode, rounding co at n equals rounding w at n in all four
-    components (exponent, significand, inexact, carry) -- hence also in the increment decision.
+    For every rounding position n >= E + 1 (at least two digits of co are dropped), every precision p, sign and
+    rounding mode, rounding co at n (spec.real.rnd_at, the C01 definition) equals rounding w at n in all four
+    components (exponent, significand, inexact, carry).  Proof: L5_core at the grid spacing A = 2^(n+1-E).
     """
     params = {'s': 'bool', 'E': 'int', 'dig': 'int', 'stk': 'bool', 'p': 'int | None', 'n': 'int', 'rm': 'RoundingMode',
               'co': 'RealFloat', 'w': 'RealFloat'}
     properties = ['C02', 'C03']
     split = ['rm']
+    options = {'chain': True}
 
     def pre(self, s, E, dig, stk, p, n, rm, co, w):
         return {
@@ -137,13 +181,18 @@ class L5_reround(Lemma):
         }
 
     def post(self, s, E, dig, stk, p, n, rm, co, w):
-        A = rnd_at(co, p, n, rm)
-        B = rnd_at(w, p, n, rm)
+        A = pow2(n + 1 - E)
+        A2 = pow2(n + 2 - E)
+        apply_lemma('L5_core', s=s, dig=dig, stk=stk, A=A, H=pow2(n - 1 - E), A2=A2, p=p, n=n, rm=rm)
+        X = rnd_at(co, p, n, rm)
+        Y = rnd_at(w, p, n, rm)
         return {
-            'exp': A[0] == B[0],
-            'c': A[1] == B[1],
-            'inexact': A[2] == B[2],
-            'carry': A[3] == B[3],
+            'co_grid': rnd_grid_eq(X, rnd_grid(s, co._c, A, p, n, rm)),
+            'w_grid': rnd_grid_eq(Y, rnd_grid(s, w._c, A2, p, n, rm)),
+            'exp': X[0] == Y[0],
+            'c': X[1] == Y[1],
+            'inexact': X[2] == Y[2],
+            'carry': X[3] == Y[3],
         }
 
 
